@@ -4,6 +4,8 @@ import (
 	"errors"
 	"fmt"
 	"strings"
+	"verif/lib/schemagen"
+	"verif/lib/typedmon"
 
 	"github.com/ipld/go-ipld-prime/datamodel"
 	"github.com/ipld/go-ipld-prime/node/basicnode"
@@ -27,7 +29,7 @@ func (c12) ID() string { return "C12" }
 func (c12) Plan(tier string) fw.Plan {
 	p := fw.Plan{
 		Batches: 16, Cases: 4000, TimeoutSec: 900, Level: "exploration",
-		Rule: "one case = one legal assembler call sequence for a generated value on one target (basicnode Any/Map/List; bindnode and checked-in generated code (gendemo) for a struct, a typed map of structs, a renamed-representation struct, a {String:Any} map, at type and representation level), nested to depth ≤5, with the two pinned rejections injected at a random position: a repeated key (through AssembleEntry, AssembleKey().AssignString or AssembleKey().AssignNode; the repeated key is drawn from all earlier keys, so also after out-of-order keys) after which the sequence continues on the same assembler, or an assignment of a kind the position cannot hold (non-string into a key assembler, scalar/wrong recursive kind into Map/List/kind prototypes and typed fields) after which the sequence ends; plus Build→Reset→Build and abandon→Reset→Build sequences. Oracle: sequential model of the assembler contract — outcome class per call and read-out of Build() equal to the accepted entries. Non-trivial: an injection actually took place; distinct by hash of (target, value, injection).",
+		Rule:        "one case = one legal assembler call sequence for a generated value on one target (basicnode Any/Map/List; bindnode and checked-in generated code (gendemo) for a struct, a typed map of structs, a renamed-representation struct, a {String:Any} map, at type and representation level), nested to depth ≤5, with the two pinned rejections injected at a random position: a repeated key (through AssembleEntry, AssembleKey().AssignString or AssembleKey().AssignNode; the repeated key is drawn from all earlier keys, so also after out-of-order keys) after which the sequence continues on the same assembler, or an assignment of a kind the position cannot hold (non-string into a key assembler, scalar/wrong recursive kind into Map/List/kind prototypes and typed fields) after which the sequence ends; plus Build→Reset→Build and abandon→Reset→Build sequences. Oracle: sequential model of the assembler contract — outcome class per call and read-out of Build() equal to the accepted entries. Non-trivial: an injection actually took place; distinct by hash of (target, value, injection).",
 		Assumptions: []string{"misuse call orders are never generated (the contract lets them panic)", "after a rejected *kind* nothing more is demanded than the error itself"},
 		MinEvents:   []string{"sequences", "repeated_key_injections", "wrong_kind_injections", "resets", "target:basicnode.Any", "target:bindnode.Msg3", "target:gendemo.Msg3", "target:gendemo.Map__String__Msg3", "target:bindnode.Map__String__Msg3"},
 	}
@@ -421,6 +423,10 @@ func (s *c12Seq) injectDup(ma datamodel.MapAssembler, dup, where string) error {
 
 func (c12) RunCase(c *fw.Ctx, rng *fw.RNG, batch, i int) {
 	c12Init()
+	if i%40 == 7 {
+		c12TypedMaps(c, rng)
+		return
+	}
 	t := c12Targets[rng.Intn(len(c12Targets))]
 	v := t.gen(rng)
 	st := v.Stats()
@@ -511,5 +517,39 @@ func (c12) RunCase(c *fw.Ctx, rng *fw.RNG, batch, i int) {
 		check(n2, "Build() after Reset")
 		v = saved
 		check(n, "the first Build() result, re-read after the builder was reset and reused")
+	}
+}
+
+// c12TypedMaps: typed maps of random type systems bound with bindnode (inferred and user-supplied Go
+// types), with string, enum and recursively assembled struct keys: a repeated key injected at a random
+// position must be refused and leave no trace (typedmon.CheckRejectedKey; generated code gets the same
+// monitor inside C13's driver).
+func c12TypedMaps(c *fw.Ctx, rng *fw.RNG) {
+	ts := schemagen.Gen(rng, schemagen.Opts{Types: 6 + rng.Intn(6)})
+	lib, err := schemagen.ToLibrary(ts)
+	if err != nil {
+		c.Inconclusive("library rejects type system: " + err.Error())
+		return
+	}
+	eng := newBindEngine(lib)
+	if rng.Bool() {
+		eng = newShapedBindEngine(lib, ts, rng)
+	}
+	c.SetCase(func() any { return map[string]any{"type_system": schemagen.Describe(ts), "engine": eng.Name()} })
+	c.Count("sequences", 1)
+	for _, t := range ts.Types {
+		if t.Kind != "map" || t.Name[0] != 'T' {
+			continue
+		}
+		for k := 0; k < 6; k++ {
+			tv := schemagen.GenValue(rng, ts, t, 0)
+			if len(tv.M) == 0 {
+				continue
+			}
+			c.Count("typed_map_sequences", 1)
+			c.Seen(fw.Mix(fw.HashString(schemagen.Describe(ts)+t.Name), tv.Hash()), true)
+			typedmon.CheckRejectedKey(c, eng, ts, t, tv, false, rng)
+			typedmon.CheckRejectedKey(c, eng, ts, t, tv, true, rng)
+		}
 	}
 }
